@@ -166,13 +166,17 @@ def bounded(run, tier, g, es5):
                 work.append(('mutation', toks[:i] + [m] + toks[i + 1:]))
                 work.append(('mutation', toks[:i] + [m] + toks[i:]))
             work.append(('mutation', toks[:i] + toks[i + 1:]))
-    L = 3 if tier == 'quick' else 5
+    L = 3 if tier == 'quick' else 4
     alpha = ALPHABET if tier == 'thorough' else ALPHABET[:18]
     for k in range(1, L + 1):
         for t in itertools.product(alpha, repeat=k):
             work.append(('short string', list(t)))
     if tier == 'quick':
         for t in itertools.product(ALPHABET[:9], repeat=4):
+            work.append(('short string', list(t)))
+    else:
+        # length 5 over the 15 most structural token kinds (the full alphabet at length 5 is 8.5 million parses: 50 minutes on 16 idle cores)
+        for t in itertools.product(ALPHABET[:15], repeat=5):
             work.append(('short string', list(t)))
     es5.Parser()
     chunks = [work[i:i + 500] for i in range(0, len(work), 500)]
@@ -196,4 +200,4 @@ def bounded(run, tier, g, es5):
         report(kind, toks, want, got)
     run.bounded_check('rt.grammar', '%d generated sentences; single-token substitutions/insertions/deletions of every %s sentence; all token '
                       'strings of length <= %d over %d token kinds%s; oracle = spec/es5_reference.py (independent ES5 recogniser)' % (
-                          len(corpus), 'eighth' if tier == 'quick' else '', L, len(alpha), ' and length 4 over 9' if tier == 'quick' else ''), n)
+                          len(corpus), 'eighth' if tier == 'quick' else '', L, len(alpha), ' and length 4 over 9' if tier == 'quick' else ' and length 5 over 15'), n)
